@@ -14,13 +14,13 @@ import (
 
 // Fault is the script of one simulated reader.
 type Fault struct {
-	Nil         bool  `json:"nil,omitempty"`          // hand the untyped nil io.Reader
-	Chunks      []int `json:"chunks,omitempty"`       // chunk sizes, cyclic; 0 = stall (0,nil); empty = everything at once
+	Nil         bool  `json:"nil,omitempty"`           // hand the untyped nil io.Reader
+	Chunks      []int `json:"chunks,omitempty"`        // chunk sizes, cyclic; 0 = stall (0,nil); empty = everything at once
 	EOFWithData bool  `json:"eof_with_data,omitempty"` // final chunk is returned together with io.EOF
-	ErrAt       int   `json:"err_at"`                 // -1: no error; k: after exactly k bytes were delivered, fail
-	ErrKind     int   `json:"err_kind,omitempty"`     // index into injectedErrors
+	ErrAt       int   `json:"err_at"`                  // -1: no error; k: after exactly k bytes were delivered, fail
+	ErrKind     int   `json:"err_kind,omitempty"`      // index into injectedErrors
 	ErrWithData bool  `json:"err_with_data,omitempty"` // the error accompanies the chunk that ends at offset k
-	WriterTo    bool  `json:"writer_to,omitempty"`    // reader also implements io.WriterTo
+	WriterTo    bool  `json:"writer_to,omitempty"`     // reader also implements io.WriterTo
 }
 
 type injected struct{ msg string }
@@ -44,7 +44,7 @@ var injectedErrorNames = []string{"own", "unexpected-eof", "closed-pipe", "cance
 // faultStats counts what actually fired.
 type faultStats struct {
 	Reads, Stalls, ShortChunks, EOFWithData, ErrFired, ErrWithData, WriterToCalls, WriterToShort, NilReader, OneByte uint64
-	ErrKinds                                                                                                     [8]uint64
+	ErrKinds                                                                                                         [8]uint64
 }
 
 func (a *faultStats) add(b *faultStats) {
